@@ -110,7 +110,3 @@ Lemma upd_last_snoc' {A} (f : A -> A) (l : list A) (x : A) : upd_last f (l ++ [x
 Proof. apply upd_last_snoc. Qed.
 Lemma lower_last_snoc a n v : lower_last (a ++ [(n, v)]) = a ++ [(lower_str n, v)].
 Proof. unfold lower_last. rewrite upd_last_snoc. reflexivity. Qed.
-Lemma exists_last_pairs (a : pairs) : a <> [] -> exists a0 n v, a = a0 ++ [(n, v)].
-Proof.
-  intro H. destruct (exists_last H) as [a0 [[n v] E]]. exists a0, n, v. exact E.
-Qed.
